@@ -807,6 +807,11 @@ static void* reb_simulation_integrate_raw(void* args){
     }
 
     double last_full_dt = r->dt; // need to store r->dt in case timestep gets artificially shrunk to meet exact_finish_time=1
+    if (r->status == REB_STATUS_LAST_STEP && r->dt_last_done != 0.){
+        // Simulation was restored from a snapshot taken right before a shortened last step (exact_finish_time=1).
+        // r->dt is the shortened step, not the timestep to be restored at the end.
+        last_full_dt = copysign(r->dt_last_done, r->dt);
+    }
     r->dt_last_done = 0.; // Reset in case first timestep attempt will fail
 
     if (r->testparticle_hidewarnings==0 && reb_particle_check_testparticles(r)){
